@@ -37,7 +37,7 @@ WELLFORMED_CONTROLS = ["S { a: 1, .. }", "> 1 > 2", "#(1, 2, ..)", "#(..)", "#(.
 
 
 def run(ck):
-    ck.prove(["AsModel.Theorems.C15"])
+    ck.prove(["AsModel.Theorems.C15", "AsModel.Theorems.C15Parse"])
     ck.build_harness("inproc")
     cases = []
     for (cls, bad) in MALFORMED:
